@@ -200,7 +200,8 @@ def check_file(rep, f, rng, quick, layout_recs, rec):
         if "element" in names and sim != "AUTOUGH2":
             pass
         rng.shuffle(subsets)
-        for s in subsets[:(len(subsets) if (not quick or len(subsets) <= 6) else 6)]:        # three tables: every subset, also in the quick tier
+        # (every subset: the whole set too - nothing is left to compare, but the reader still has to step through the file)
+        for s in [tuple(names)] + subsets[:(len(subsets) if (not quick or len(subsets) <= 6) else 6)]:        # three tables: every subset, also in the quick tier
             det = {"file": fname, "skip_tables": list(s)}
             try:
                 l3 = listing.open_listing(f, skip_tables=list(s))
